@@ -10,6 +10,7 @@ import (
 	"sort"
 	"strconv"
 	"strings"
+	"sync"
 	"time"
 
 	"govc/internal/engine"
@@ -329,20 +330,20 @@ func cmdCheck(args []string) int {
 		"seed":        seed,
 		"level":       "proof",
 		"coverage": map[string]any{
-			"obligations":              total - len(knownHits),
-			"discharged":               discharged,
+			"obligations":                     total - len(knownHits),
+			"discharged":                      discharged,
 			"obligations_incl_known_findings": total,
-			"known_findings":           orEmpty(knownHits),
-			"checker_cmd":              fmt.Sprintf("bin/govc check %s --tier %s", prop, *tier),
-			"trusted_base":             trustedBase,
-			"samples":                  samples,
-			"by_backend":               byBackend,
-			"solver_time_s":            round3(solverTime),
-			"functions_under_contract": orEmpty(fns),
-			"functions_outside_subset": orEmpty(outs),
-			"bounded_companions":       confOrEmpty(conf),
-			"integers":                 "mathematical Int with explicit no-overflow obligations at arithmetic sites (A1)",
-			"explanation":              "VCs generated from go/ssa of /repo's working tree (tags: verif); each obligation is facts ⊢ cond ⇒ goal, discharged iff some solver answers unsat and none answers sat",
+			"known_findings":                  orEmpty(knownHits),
+			"checker_cmd":                     fmt.Sprintf("bin/govc check %s --tier %s", prop, *tier),
+			"trusted_base":                    trustedBase,
+			"samples":                         samples,
+			"by_backend":                      byBackend,
+			"solver_time_s":                   round3(solverTime),
+			"functions_under_contract":        orEmpty(fns),
+			"functions_outside_subset":        orEmpty(outs),
+			"bounded_companions":              confOrEmpty(conf),
+			"integers":                        "mathematical Int with explicit no-overflow obligations at arithmetic sites (A1)",
+			"explanation":                     "VCs generated from go/ssa of /repo's working tree (tags: verif); each obligation is facts ⊢ cond ⇒ goal, discharged iff some solver answers unsat and none answers sat",
 		},
 		"assumptions": ass,
 		"wall_s":      round3(time.Since(run.start).Seconds()),
@@ -514,6 +515,7 @@ func cmdReplay(args []string) int {
 func cmdSelftest(args []string) int {
 	fs := flag.NewFlagSet("selftest", flag.ExitOnError)
 	only := fs.String("only", "", "substring of mutant name")
+	par := fs.Int("j", 3, "mutants checked in parallel")
 	_ = fs.Parse(args)
 	dir := filepath.Join(verifDir(), "selftest", "mutants")
 	metas, _ := filepath.Glob(filepath.Join(dir, "*.json"))
@@ -521,6 +523,16 @@ func cmdSelftest(args []string) int {
 	bad := 0
 	ran := 0
 	self, _ := os.Executable()
+	// one snapshot of /repo's working tree for the whole run (edits made to /repo while the corpus runs do not leak in)
+	base, _ := os.MkdirTemp("/var/tmp", "govc-st-base-")
+	defer os.RemoveAll(base)
+	if out, err := exec.Command("rsync", "-a", "--exclude", ".git", repoDir()+"/", base+"/").CombinedOutput(); err != nil {
+		fmt.Printf("FAIL rsync: %v %s\n", err, out)
+		return 1
+	}
+	var mu sync.Mutex
+	var wg sync.WaitGroup
+	sem := make(chan struct{}, *par)
 	for _, m := range metas {
 		if *only != "" && !strings.Contains(m, *only) {
 			continue
@@ -539,13 +551,18 @@ func cmdSelftest(args []string) int {
 			continue
 		}
 		ran++
-		scratch, _ := os.MkdirTemp("/var/tmp", "govc-st-")
-		func() {
+		wg.Add(1)
+		sem <- struct{}{}
+		go func() {
+			defer wg.Done()
+			defer func() { <-sem }()
+			scratch, _ := os.MkdirTemp("/var/tmp", "govc-st-")
 			defer os.RemoveAll(scratch)
 			repo := filepath.Join(scratch, "repo")
-			if out, err := exec.Command("rsync", "-a", "--exclude", ".git", repoDir()+"/", repo+"/").CombinedOutput(); err != nil {
+			badpp := func() { mu.Lock(); bad++; mu.Unlock() }
+			if out, err := exec.Command("rsync", "-a", base+"/", repo+"/").CombinedOutput(); err != nil {
 				fmt.Printf("FAIL %s: rsync: %v %s\n", meta.Name, err, out)
-				bad++
+				badpp()
 				return
 			}
 			patch := meta.Patch
@@ -556,7 +573,7 @@ func cmdSelftest(args []string) int {
 			cmd.Dir = repo
 			if out, err := cmd.CombinedOutput(); err != nil {
 				fmt.Printf("FAIL %s: patch does not apply: %v %s\n", meta.Name, err, out)
-				bad++
+				badpp()
 				return
 			}
 			bld := exec.Command("go", "build", "./...")
@@ -564,7 +581,7 @@ func cmdSelftest(args []string) int {
 			bld.Env = append(os.Environ(), "GOFLAGS=-mod=mod", "GOPROXY=off", "GOSUMDB=off", "GOTOOLCHAIN=local")
 			if out, err := bld.CombinedOutput(); err != nil {
 				fmt.Printf("FAIL %s: mutant does not compile: %s\n", meta.Name, indent(string(out)))
-				bad++
+				badpp()
 				return
 			}
 			c := exec.Command(self, "check", meta.Property, "--tier", "quick")
@@ -592,10 +609,11 @@ func cmdSelftest(args []string) int {
 				fmt.Printf("ok   %-50s %s exit=%d\n", meta.Name, meta.Property, code)
 			} else {
 				fmt.Printf("FAIL %-50s %s exit=%d (expected %v)\n%s\n", meta.Name, meta.Property, code, meta.Expect, indent(text))
-				bad++
+				badpp()
 			}
 		}()
 	}
+	wg.Wait()
 	fmt.Printf("selftest: %d mutants, %d failures\n", ran, bad)
 	if bad > 0 || ran == 0 {
 		return 1
@@ -617,6 +635,7 @@ func cmdSeeded(args []string) int {
 	fs := flag.NewFlagSet("seeded", flag.ExitOnError)
 	only := fs.String("only", "", "substring of mutant name")
 	props := fs.String("props", "", "comma-separated list of extra properties to run for every mutant")
+	par := fs.Int("j", 3, "mutants checked in parallel")
 	_ = fs.Parse(args)
 	dirs, _ := filepath.Glob(filepath.Join(verifDir(), "seeded", "*", "patch.diff"))
 	sort.Strings(dirs)
@@ -629,7 +648,17 @@ func cmdSeeded(args []string) int {
 		Violations []string `json:"violations"`
 	}
 	var rows []row
+	base, _ := os.MkdirTemp("/var/tmp", "govc-seed-base-")
+	defer os.RemoveAll(base)
+	if out, err := exec.Command("rsync", "-a", "--exclude", ".git", repoDir()+"/", base+"/").CombinedOutput(); err != nil {
+		fmt.Printf("rsync failed: %v %s\n", err, out)
+		return 1
+	}
+	var mu sync.Mutex
+	var wg sync.WaitGroup
+	sem := make(chan struct{}, *par)
 	for _, pd := range dirs {
+		pd := pd
 		d := filepath.Dir(pd)
 		name := filepath.Base(d)
 		if *only != "" && !strings.Contains(name, *only) {
@@ -644,58 +673,74 @@ func cmdSeeded(args []string) int {
 		if *props != "" {
 			plist = append(plist, strings.Split(*props, ",")...)
 		}
-		scratch, _ := os.MkdirTemp("/var/tmp", "govc-seed-")
-		repo := filepath.Join(scratch, "repo")
-		if out, err := exec.Command("rsync", "-a", "--exclude", ".git", repoDir()+"/", repo+"/").CombinedOutput(); err != nil {
-			fmt.Printf("%s: rsync failed: %v %s\n", name, err, out)
-			os.RemoveAll(scratch)
-			continue
-		}
-		cmd := exec.Command("patch", "-p1", "-s", "-i", pd)
-		cmd.Dir = repo
-		if out, err := cmd.CombinedOutput(); err != nil {
-			fmt.Printf("%s: patch does not apply: %s\n", name, out)
-			os.RemoveAll(scratch)
-			continue
-		}
-		for _, p := range plist {
-			c := exec.Command(self, "check", p, "--tier", "quick")
-			c.Env = append(os.Environ(), "GOVC_REPO="+repo, "GOVC_EVIDENCE_DIR="+filepath.Join(scratch, "ev"), "GOVC_VERIF="+verifDir(), "GOVC_REPLAY_DIR="+filepath.Join(scratch, "replays"))
-			out, err := c.CombinedOutput()
-			code := 0
-			if ee, ok := err.(*exec.ExitError); ok {
-				code = ee.ExitCode()
-			} else if err != nil {
-				code = -1
+		wg.Add(1)
+		sem <- struct{}{}
+		go func() {
+			defer wg.Done()
+			defer func() { <-sem }()
+			scratch, _ := os.MkdirTemp("/var/tmp", "govc-seed-")
+			defer os.RemoveAll(scratch)
+			repo := filepath.Join(scratch, "repo")
+			if out, err := exec.Command("rsync", "-a", base+"/", repo+"/").CombinedOutput(); err != nil {
+				fmt.Printf("%s: rsync failed: %v %s\n", name, err, out)
+				return
 			}
-			r := row{Mutant: name, Property: p, Exit: code}
-			for _, l := range strings.Split(string(out), "\n") {
-				if strings.Contains(l, "not discharged:") || strings.Contains(l, "no longer generated") {
-					r.Violations = append(r.Violations, strings.TrimSpace(l))
+			cmd := exec.Command("patch", "-p1", "-s", "-i", pd)
+			cmd.Dir = repo
+			if out, err := cmd.CombinedOutput(); err != nil {
+				fmt.Printf("%s: patch does not apply: %s\n", name, out)
+				mu.Lock()
+				rows = append(rows, row{Mutant: name, Property: meta.Property, Exit: -2, Violations: []string{"patch does not apply"}})
+				mu.Unlock()
+				return
+			}
+			for _, p := range plist {
+				c := exec.Command(self, "check", p, "--tier", "quick")
+				c.Env = append(os.Environ(), "GOVC_REPO="+repo, "GOVC_EVIDENCE_DIR="+filepath.Join(scratch, "ev"), "GOVC_VERIF="+verifDir(), "GOVC_REPLAY_DIR="+filepath.Join(scratch, "replays"))
+				out, err := c.CombinedOutput()
+				code := 0
+				if ee, ok := err.(*exec.ExitError); ok {
+					code = ee.ExitCode()
+				} else if err != nil {
+					code = -1
+				}
+				r := row{Mutant: name, Property: p, Exit: code}
+				for _, l := range strings.Split(string(out), "\n") {
+					if strings.Contains(l, "not discharged:") || strings.Contains(l, "no longer generated") {
+						r.Violations = append(r.Violations, strings.TrimSpace(l))
+					}
+				}
+				r.Caught = code == 1
+				mu.Lock()
+				rows = append(rows, r)
+				mu.Unlock()
+				status := "MISSED"
+				if r.Caught {
+					status = "caught"
+				} else if code != 0 {
+					status = fmt.Sprintf("ERROR(exit %d)", code)
+				}
+				first := ""
+				if len(r.Violations) > 0 {
+					first = r.Violations[0]
+					if len(first) > 110 {
+						first = first[:110]
+					}
+				}
+				fmt.Printf("%-8s %-10s %-5s %s\n", status, name, p, first)
+				if code != 0 && code != 1 {
+					fmt.Println(indent(string(out)))
 				}
 			}
-			r.Caught = code == 1
-			rows = append(rows, r)
-			status := "MISSED"
-			if r.Caught {
-				status = "caught"
-			} else if code != 0 {
-				status = fmt.Sprintf("ERROR(exit %d)", code)
-			}
-			first := ""
-			if len(r.Violations) > 0 {
-				first = r.Violations[0]
-				if len(first) > 110 {
-					first = first[:110]
-				}
-			}
-			fmt.Printf("%-8s %-10s %-5s %s\n", status, name, p, first)
-			if code != 0 && code != 1 {
-				fmt.Println(indent(string(out)))
-			}
-		}
-		os.RemoveAll(scratch)
+		}()
 	}
+	wg.Wait()
+	sort.Slice(rows, func(i, j int) bool {
+		if rows[i].Mutant != rows[j].Mutant {
+			return rows[i].Mutant < rows[j].Mutant
+		}
+		return rows[i].Property < rows[j].Property
+	})
 	data, _ := json.MarshalIndent(rows, "", " ")
 	_ = os.WriteFile(filepath.Join(verifDir(), "seeded", "RESULTS.json"), data, 0644)
 	return 0
